@@ -427,6 +427,36 @@ let op_scan r = function
         if kind = "dump" && i_err <> "eof" then flag r "prop:C01:error";
         if kind = "race" && i_err <> "nil" then flag r "prop:C08:error"
       end;
+      (* ---- C20 (first half): a dump of the live runtime ---- *)
+      if kind = "live" then begin
+        if i_err <> "eof" then flag r "prop:C20:live-dump-error";
+        (match i_gs with
+         | None -> flag r "prop:C20:live-no-snapshot"
+         | Some gs ->
+           if List.length gs <> int_of_string expect then flag r "prop:C20:goroutine-count";
+           let has_frame nm (g : M.goroutine) =
+             List.exists (fun (c : M.call) -> string_of_bytes c.M.cFunc.M.fName = nm) g.M.gSig.M.sStack.M.calls in
+           List.iter (fun kv ->
+             match String.split_on_char ':' kv with
+             | [nm; cnt] ->
+               let l = List.filter (has_frame nm) gs in
+               if List.length l <> int_of_string cnt then flag r ("prop:C20:known-goroutines:" ^ nm)
+               else List.iter (fun (g : M.goroutine) ->
+                 let st = string_of_bytes g.M.gSig.M.state in
+                 let want = (match nm with
+                   | "parkRecv" | "deep" | "parkLocked" -> ["chan receive"]
+                   | "parkSelect" -> ["select"]
+                   | "parkMutex" -> ["sync.Mutex.Lock"; "semacquire"]
+                   | "parkSleep" -> ["sleep"]
+                   | _ -> [st]) in
+                 if not (List.mem st want) then flag r ("prop:C20:known-state:" ^ nm);
+                 if nm = "parkLocked" && not g.M.gSig.M.locked then flag r "prop:C20:known-locked";
+                 (match g.M.gSig.M.createdBy.M.calls with
+                  | c :: _ -> if string_of_bytes c.M.cFunc.M.fName <> "opLive" then flag r "prop:C20:known-creator"
+                  | [] -> flag r "prop:C20:known-creator")) l
+             | _ -> ()) (split_on ',' aux);
+           tag r "live")
+      end;
       (* ---- C11: streaming progress, on the implementation's trace alone ---- *)
       (* at every Read call: with k bytes delivered so far, every complete line within the
          first k bytes that is forwarded at all has already been written; and no Read is
@@ -489,6 +519,7 @@ let op_scanseq r = function
          if string_of_bytes mrest <> unhex rest then flag r "corr:seqrest");
       (* C07 oracle on the implementation's output: one snapshot per generated dump, equal to
          scanning that dump alone; everything else forwarded, in order, nothing twice *)
+      if regions = "?" then tag r "mutant" else
       let regs = List.map (fun g -> match String.split_on_char ':' g with
         | [a; b] -> (int_of_string a, int_of_string b) | _ -> failwith "region") (split_on ',' regions) in
       tag r (Printf.sprintf "dumps=%d" (List.length regs));
@@ -649,7 +680,8 @@ let rec is_interleaving (a : string list) (b : string list) (c : string list) : 
 let rune_count_s (s : string) = int_of_nat (M.rune_count (bytes_of_string s))
 
 let op_pp r = function
-  | [content; level; pf; lit; banner; palette; plain; pe; color; ce; filt; fe; mat; me; ngor] ->
+  | [content; level; pf; lit; banner; palette; plain; pe; color; ce; filt; fe; mat; me; ngor; junks; det] ->
+    if det <> "1" then flag r "prop:C06:pp-nondeterministic";
     let lvl = level_of level in
     let pfm = if pf = "full" then M.FullPath else M.BasePath in
     let pal = List.map bytes_of_hex (String.split_on_char ',' palette) in
@@ -678,6 +710,29 @@ let op_pp r = function
       run (mk [] None pred) (unhex mat) me "match"
     end;
     if pe <> "0" && pe <> "1" then flag r "impl:panic";
+    (* ---- C02 end to end: the non-dump text survives in order around the renderings ---- *)
+    if junks <> "-" && pe = "0" then begin
+      let js = List.map unhex (String.split_on_char ',' junks) in
+      tag r (Printf.sprintf "junks=%d" (List.length js));
+      let pos = ref 0 and ok = ref true in
+      List.iteri (fun i j ->
+        if !ok then begin
+          if i = 0 then (if is_prefix j plain_s then pos := String.length j else ok := false)
+          else begin
+            (* next occurrence of j at or after pos; the last one must end the output *)
+            let n = String.length plain_s and lj = String.length j in
+            let found = ref (-1) and p = ref !pos in
+            while !found < 0 && !p + lj <= n do
+              if String.sub plain_s !p lj = j then found := !p else incr p
+            done;
+            if !found < 0 then ok := false else pos := !found + lj
+          end
+        end) js;
+      if not !ok then flag r "prop:C02:pp-text-lost-or-reordered"
+      else (match List.rev js with
+            | last :: _ -> if not (is_suffix last plain_s) then flag r "prop:C02:pp-trailing-text-misplaced"
+            | [] -> ())
+    end;
     (* ---- C16 oracles on the implementation's output alone ---- *)
     if strip_esc color_s <> plain_s then flag r "prop:C16:colour-changes-text";
     if ngor <> "-" then begin
@@ -722,8 +777,9 @@ let op_pp r = function
 
 (* ---------- op: html (C17) ---------- *)
 let op_html r = function
-  | [mode; ver; values; attrs; skel; scheme; complete; err] ->
+  | [mode; ver; values; attrs; skel; scheme; complete; err; det] ->
     tag r ("mode=" ^ mode);
+    if det <> "1" then flag r "prop:C06:html-nondeterministic";
     if starts_with err "PANIC" then flag r "impl:panic"
     else if starts_with err "ERR" then (flag r "prop:C17:render-error"; r.detail <- err)
     else begin
@@ -807,6 +863,98 @@ let op_guess r = function
     end
   | _ -> failwith "guess: fields"
 
+(* ---------- op: augment (C19) ---------- *)
+let op_augment r = function
+  | [content; _fs; frames; floats; i_snap; i_plain] ->
+    if starts_with i_snap "PANIC" then flag r "impl:panic"
+    else if i_snap = "nil" || i_plain = "" then flag r "driver:augment-no-snapshot"
+    else begin
+      let gs = goroutines_of (parse_sx i_snap) and plain = goroutines_of (parse_sx i_plain) in
+      let calls l = List.concat_map (fun (g : M.goroutine) -> g.M.gSig.M.sStack.M.calls) l in
+      let ic = calls gs and pc = calls plain in
+      (* float formatting oracle *)
+      let tabs = String.split_on_char '|' floats in
+      let tab s = List.map (fun kv -> match String.split_on_char '=' kv with
+        | [k; v] -> (k, bytes_of_string (unhex v)) | _ -> failwith "float") (split_on ',' s) in
+      let t32 = tab (List.nth tabs 0) and t64 = tab (List.nth tabs 1) in
+      let look t v = match List.assoc_opt (string_of_n v) t with Some s -> s | None -> bytes_of_string "?float?" in
+      let frs = String.split_on_char '|' frames in
+      if List.length frs <> List.length ic || List.length pc <> List.length ic then flag r "driver:augment-frames"
+      else begin
+        let k = ref 0 in
+        List.iter2 (fun fr ((c : M.call), (p : M.call)) ->
+          incr k;
+          (* raw values never change; nothing but Processed differs from the run without source analysis *)
+          let strip (c : M.call) = { c with M.cArgs = { c.M.cArgs with M.processed = [] } } in
+          if sx_to_string (sx_of_call (strip c)) <> sx_to_string (sx_of_call (strip p)) then flag r "prop:C19:frame-changed";
+          if p.M.cArgs.M.processed <> [] then flag r "driver:augment-plain-processed";
+          (match String.split_on_char ';' fr with
+           | [types; extra; expected] ->
+             let impl_proc = List.map string_of_bytes c.M.cArgs.M.processed in
+             (* model *)
+             if types = "none" then (if impl_proc <> [] then flag r "corr:augment"; tag r "unaugmented")
+             else begin
+               let tl = List.map bytes_of_hex (split_on ',' types) in
+               (match M.augment_call (look t32) (look t64) tl (extra = "1") p.M.cArgs with
+                | M.Ok m -> if List.map string_of_bytes m <> impl_proc then begin
+                    flag r "corr:augment";
+                    if r.detail = "" then r.detail <- Printf.sprintf "frame %d: model [%s] impl [%s]" !k
+                      (String.concat " | " (List.map string_of_bytes m)) (String.concat " | " impl_proc) end
+                | M.Panic _ -> flag r "corr:panic")
+             end;
+             (* truthfulness against the values the generator chose *)
+             let e = unhex expected in
+             if e <> "-" then begin
+               tag r "truth";
+               let want = if e = "" then [] else String.split_on_char '\000' e in
+               if want <> impl_proc then begin
+                 flag r "prop:C19:not-truthful";
+                 if r.detail = "" then r.detail <- Printf.sprintf "frame %d: want [%s] got [%s]" !k (String.concat " | " want) (String.concat " | " impl_proc)
+               end
+             end
+           | _ -> failwith "frame")) frs (List.combine ic pc)
+      end
+    end
+  | _ -> failwith "augment: fields"
+
+(* ---------- op: handler (C20) ---------- *)
+let op_handler r = function
+  | [meth; maxmem; augment; similarity; i_status; complete] ->
+    tag r ("status=" ^ i_status);
+    let st = M.handler (bytes_of_hex meth) (bytes_of_hex maxmem) (bytes_of_hex augment) (bytes_of_hex similarity) (fun _ _ -> false) in
+    let m = string_of_int (int_of_nat (M.status_class st)) in
+    if m <> i_status then (flag r "corr:handler"; r.detail <- Printf.sprintf "model %s impl %s" m i_status);
+    (* C20 on the implementation alone: 405 iff not GET; valid parameters => 200 with a complete page; invalid => 4xx *)
+    if complete = "0" then flag r "prop:C20:incomplete-page";
+    if complete = "P" then flag r "impl:panic"
+  | _ -> failwith "handler: fields"
+
+(* ---------- op: alias (C14) ---------- *)
+let op_alias r = function
+  | [lvl; gs_s; ops; res; unchanged; same; capsame; graph; buckets] ->
+    tag r (Printf.sprintf "ops=%d" (String.length ops));
+    if starts_with res "PANIC" then flag r "impl:panic";
+    if unchanged <> "1" then flag r "prop:C14:snapshot-modified";
+    if same <> "1" then flag r "prop:C14:reaggregation-differs";
+    if capsame <> "1" then flag r "prop:C14:slice-header-changed";
+    let gs = goroutines_of (parse_sx gs_s) in
+    let lvl = level_of lvl in
+    (match M.alias_graph lvl gs with
+     | M.Panic _ -> flag r "corr:panic"
+     | M.Ok g ->
+       let so = function None -> "-1" | Some n -> string_of_int (int_of_nat n) in
+       let sv = function None -> "-1" | Some (a, b) -> string_of_int (int_of_nat a) ^ "." ^ string_of_int (int_of_nat b) in
+       let m = String.concat "|" (List.map (fun ((a, b), c) ->
+         Printf.sprintf "calls:%s;created:%s;vals:%s" (so a) (so b) (String.concat "," (List.map sv c))) g) in
+       let m = if m = "" then "-" else m in
+       if List.exists (fun ((a, _), _) -> a = None) g then tag r "merged-fresh";
+       if m <> graph then (flag r "corr:alias-graph"; r.detail <- Printf.sprintf "model [%s] impl [%s]" m graph));
+    (* re-aggregation after the operations = aggregation by the model of the untouched snapshot *)
+    (match M.aggregate M.id_shuffle lvl gs with
+     | M.Ok mb -> if sx_to_string (sx_of_buckets mb) <> buckets then flag r "corr:alias-buckets"
+     | M.Panic _ -> flag r "corr:panic")
+  | _ -> failwith "alias: fields"
+
 (* ---------- main loop ---------- *)
 let () =
   let ops : (string, res -> string list -> unit) Hashtbl.t = Hashtbl.create 16 in
@@ -819,6 +967,9 @@ let () =
   Hashtbl.replace ops "pp" op_pp;
   Hashtbl.replace ops "html" op_html;
   Hashtbl.replace ops "guess" op_guess;
+  Hashtbl.replace ops "augment" op_augment;
+  Hashtbl.replace ops "alias" op_alias;
+  Hashtbl.replace ops "handler" op_handler;
   Hashtbl.replace ops "chunk" op_chunk;
   (try
     while true do
